@@ -35,6 +35,13 @@ def gen_content(r, kind, n):
             if n:
                 a[r.randrange(n)] = r.randrange(1, 256)
         return bytes(a)
+    if kind == 5:
+        # runs of non-zero bytes and of zeros whose lengths sit on the boundaries of run-length style codecs
+        out = bytearray()
+        while len(out) < n:
+            out += bytes(r.randrange(1, 256) for _ in range(r.choice([1, 2, 3, 127, 128, 129, 130, 255, 256, 257, 385])))
+            out += bytes(r.choice([1, 2, 3, 4, 5, 128, 129, 130, 131, 132, 133, 134, 261, 391]))
+        return bytes(out[:n])
     w = [b"quest ", b"item ", b"World\\Maps\\Azeroth\\", b"\r\n", b"0123456789"]
     return b"".join(r.choice(w) for _ in range(n // 4 + 1))[:n]
 
@@ -77,7 +84,7 @@ def gen_case(r, i, big):
     files = []
     for n in names:
         size = r.choice(sizes_pool)
-        data = gen_content(r, r.randrange(5), size)
+        data = gen_content(r, r.randrange(6), size)
         comp = r.choice(["d", "d", "%x" % r.choice(METHODS)])
         enc = r.choice([0, 0, 1, 2])
         files.append((n, data, comp, enc))
